@@ -128,15 +128,16 @@ theorem partition_inv (lvars : List Nat) (w o : List Expr) :
   foldl_mergeVar_inv lvars w o lvars _ (initParts_inv lvars w o)
 
 /-- what a successful test establishes: a position, and either a never-equal pair of subscripts free of loop
-variables, or a dependency distance of exactly zero -/
+variables, or a dependency distance of exactly zero between subscripts that use no loop variable but `i` -/
 def Separates (lvars : List Nat) (i : Nat) (dn : List (Nat × Nat)) (w o : List Expr) (p : Nat) : Prop :=
   p < w.length ∧ p < o.length ∧
     ((independent0 (sub w p) (sub o p) = true ∧
         ∀ u ∈ lvars, u ∉ C08.evars (sub w p) ∧ u ∉ C08.evars (sub o p)) ∨
-      depDistance i dn (sub w p) (sub o p) = some 0)
+      (depDistance i dn (sub w p) (sub o p) = some 0 ∧
+        ∀ u ∈ lvars, u ≠ i → u ∉ C08.evars (sub w p) ∧ u ∉ C08.evars (sub o p)))
 
-theorem decideParts_sound (lvars : List Nat) (i : Nat) (dn : List (Nat × Nat)) (w o : List Expr) :
-    ∀ parts : List Part, (∀ q ∈ parts, PartInv lvars w o q) → decideParts i dn w o parts = true →
+theorem decideParts_sound (lvars : List Nat) (i : Nat) (hi : i ∈ lvars) (dn : List (Nat × Nat)) (w o : List Expr) :
+    ∀ parts : List Part, (∀ q ∈ parts, PartInv lvars w o q) → decideParts lvars i dn w o parts = true →
       ∃ p, Separates lvars i dn w o p := by
   intro parts
   induction parts with
@@ -146,13 +147,19 @@ theorem decideParts_sound (lvars : List Nat) (i : Nat) (dn : List (Nat × Nat)) 
     have hq := hinv q (by simp)
     have hrest : ∀ q' ∈ rest, PartInv lvars w o q' := fun q' h => hinv q' (List.mem_cons_of_mem _ h)
     obtain ⟨vs, ps⟩ := q
-    have multi : (ps.any (fun p => depDistance i dn (sub w p) (sub o p) == some 0)) = true →
-        ∃ p, Separates lvars i dn w o p := by
+    have multi : (ps.any (fun p => onlyVar lvars i (sub w p) (sub o p) &&
+        depDistance i dn (sub w p) (sub o p) == some 0)) = true → ∃ p, Separates lvars i dn w o p := by
       intro hany
-      simp only [List.any_eq_true, beq_iff_eq] at hany
-      obtain ⟨p, hp, hd⟩ := hany
+      simp only [List.any_eq_true, Bool.and_eq_true, beq_iff_eq] at hany
+      obtain ⟨p, hp, hov, hd⟩ := hany
       obtain ⟨h1, h2, _⟩ := hq p hp
-      exact ⟨p, h1, h2, Or.inr hd⟩
+      refine ⟨p, h1, h2, Or.inr ⟨hd, ?_⟩⟩
+      intro u hu hne
+      simp only [onlyVar, List.all_eq_true, Bool.or_eq_true, beq_iff_eq, Bool.and_eq_true,
+        Bool.not_eq_eq_eq_not, Bool.not_true, decide_eq_false_iff_not] at hov
+      rcases hov u hu with he | hh
+      · exact absurd he hne
+      · exact hh
     match ps, hq, multi, h with
     | [], _, multi, h =>
       simp only [decideParts] at h
@@ -174,9 +181,26 @@ theorem decideParts_sound (lvars : List Nat) (i : Nat) (dn : List (Nat × Nat)) 
           · intro hm; have := h3 u hu (Or.inr hm); simp [hvs] at this
         · exact ih hrest h
       · split at h
-        · split at h
+        · rename_i hlen1
+          split at h
           · rename_i hd
-            exact ⟨p, h1, h2, Or.inr (by simpa using hd)⟩
+            have hd' : depDistance i dn (sub w p) (sub o p) = some 0 := by simpa using hd
+            refine ⟨p, h1, h2, Or.inr ⟨hd', ?_⟩⟩
+            -- the only loop variable of the group is `i`
+            obtain ⟨_, _, hmem, _⟩ := depDistance_zero_spec hd'
+            have hiv : i ∈ vs := h3 i hi (by simpa [List.mem_append] using hmem)
+            obtain ⟨a, ha⟩ := List.length_eq_one_iff.mp hlen1
+            have hia : i = a := by simpa [ha] using hiv
+            intro u hu hne
+            constructor
+            · intro hm
+              have := h3 u hu (Or.inl hm)
+              rw [ha, List.mem_singleton] at this
+              exact hne (this.trans hia.symm)
+            · intro hm
+              have := h3 u hu (Or.inr hm)
+              rw [ha, List.mem_singleton] at this
+              exact hne (this.trans hia.symm)
           · exact ih hrest h
         · exact absurd h (by simp)
     | p1 :: p2 :: ps', _, multi, h =>
@@ -185,8 +209,8 @@ theorem decideParts_sound (lvars : List Nat) (i : Nat) (dn : List (Nat × Nat)) 
       · exact multi (by assumption)
       · exact ih hrest h
 
-theorem indepPair_separates {lvars : List Nat} {dn : List (Nat × Nat)} {w o : List Expr}
-    (h : indepPair lvars dn w o = true) : ∃ p, Separates lvars (lvars.headD 0) dn w o p :=
-  decideParts_sound lvars _ dn w o _ (partition_inv lvars w o) h
+theorem indepPair_separates {v : Nat} {inner : List Nat} {dn : List (Nat × Nat)} {w o : List Expr}
+    (h : indepPair (v :: inner) dn w o = true) : ∃ p, Separates (v :: inner) v dn w o p :=
+  decideParts_sound (v :: inner) v (by simp) dn w o _ (partition_inv (v :: inner) w o) (by simpa [indepPair] using h)
 
 end C08
